@@ -9,7 +9,7 @@ def queries(tier):
             bounds="strings of <= %d characters over {a, b, '.', NUL}" % (5 if tier == "quick" else 7), outside="longer strings (see path_split_long)")]
     for pre in ((254, 256) if tier == "quick" else (253, 254, 255, 256, 257)):
         qs.append(Q("path_split_long_%d" % pre, "C10/pathsplit.c", units=U, harness_defines={"PRE": pre, "T": 3},
-                    unwind_default=pre + 8, unwind={"harness.0": pre + 2, "harness": 8}, fp=BUF_FP, flags=["--max-field-sensitivity-array-size", "300"], stubs=["libc.c", "no_traits.c"],
+                    unwind_default=pre + 8, unwind={"harness.0": pre + 2, "harness": 8}, fp=BUF_FP, timeout=900, flags=["--max-field-sensitivity-array-size", "300"], stubs=["libc.c", "no_traits.c"],
                     bounds="%d concrete characters followed by a symbolic tail of 3 over {a, b, '.', NUL}: first element lengths %d..%d across the 255-byte length field" % (pre, pre, pre + 3),
                     outside="other prefix lengths"))
     return qs
